@@ -81,7 +81,13 @@ BROKER['C19'] = ('Every byte sequence on the carrier is the concatenation of the
                  'and there is no panic outcome: Lean theorems over every event sequence of the BaseConn LTS. The real transport.BaseConn (+ packet.Stream, mercury.Writer) runs over an instrumented carrier inside a testing/synctest bubble, '
                  'scripted (exact comparison) and concurrent (the model must explain each instant by some interleaving), plus TCP/WebSocket loopback pairs. Partial: the carrier close on the receive error path is outside sendMutex and is treated as an environment fault event.',
                  'Lean 4 proof (invariants over every event sequence of an LTS) + trace conformance')
-NOTE_OVERRIDE = {'C19': TBX + 'Not modelled: OS socket behaviour, real blocking, partial carrier writes; packets are opaque byte strings here (framing is C03).'}
+BROKER['C03'] = ('Decoder.Read depends on the byte stream only, never on how it is chunked (read_chunk_invariant, for every chunking and every way of delivering EOF); encodings of well-formed packets read back as exactly those packets then clean EOF under any chunking; '
+                 'a declared length above the read limit is refused after at most 5 peeked bytes; a stream ending inside a packet yields unexpected-EOF and never a packet; detection overflow iff four continuation bytes; for every event sequence of async/sync writes, flushes and timer fires '
+                 'wire ++ buffer = concatenation of the encodings in send order and the buffer is empty after a sync write/flush; WebSocket message boundaries are irrelevant (ws_fragmentation_irrelevant): Lean theorems. The real packet.Decoder/Encoder/Stream, mercury.Writer and the '
+                 'transport WebSocket/TCP connections are compared with the model on every 2-/3-way split of short streams, random chunkings, truncations, limits, garbage, encoder scripts and real loopback pairs. Partial: ws_stitch holds under gorilla\'s reader contract (EOF arrives alone); the unrestricted statement is refuted by a latent (n>0, EOF) case that gorilla over TCP never produces.',
+                 'Lean 4 proof (chunk-invariance and round-trip by induction over chunk lists / event lists) + differential correspondence')
+NOTE_OVERRIDE = {'C03': TBX + 'Modelled by contract, not verified: bufio.Reader (Peek/ReadFull), gorilla/websocket message readers, mercury.Writer (from its source); io.ErrNoProgress and real timer timing are not modelled.',
+'C19': TBX + 'Not modelled: OS socket behaviour, real blocking, partial carrier writes; packets are opaque byte strings here (framing is C03).'}
 import json as _json, os as _os
 _props = _json.load(open(_os.path.join(_os.path.dirname(_os.path.dirname(_os.path.abspath(__file__))), 'lean', 'PROPS.json')))
 for _pid, (_text, _tech) in BROKER.items():
